@@ -3422,7 +3422,7 @@ func E9InflectionAcrossLine(c *core.Ctx, r *core.Report) {
 			}
 		}
 		if got == want {
-			if v := core.ConstVal(info, call.Args[1]); v != nil && constant.Sign(v) == 0 {
+			if v := core.ConstVal(info, call.Args[1]); v != nil && numSign(v) == 0 {
 				good = true
 			}
 		}
